@@ -117,6 +117,8 @@ def check_case(ctx, case):
 
 
 def _check(ctx, case, nc, wd):
+    global SCRUB
+    SCRUB = getattr(nc.sir, "_LINE_SCRUBBED_MESSAGE", SCRUB)  # the marker is netconan's to choose
     rng = random.Random(case["seed"])
     opts = M.options(rng)
     feats = case["feats"]
